@@ -5,6 +5,11 @@ rule to be configured; those shapes already exist in the other families."""
 import copy
 
 
+# deviation bound of the cross-family runs in both tiers: bound 2 over some 250 scenarios took hours per check and
+# there are six such checks; the thorough tier widens the selection of scenarios instead
+CROSS_BOUND = 1
+
+
 def _compose(a, b):
     if a is None:
         return b
@@ -21,9 +26,11 @@ def cross_family(tier, observer=None, with_no_logger=True):
     from .props import c06, c09, c13, c14, c15, c16, c17
     sc = {}
 
+    wide = tier != "quick"  # thorough tier: every scenario of every family (still at the small bound, see CROSS_BOUND)
+
     def add(tag, scns, keep=None):
         for name, s in scns.items():
-            if keep is not None and not keep(name):
+            if keep is not None and not wide and not keep(name):
                 continue
             s2 = copy.copy(s)
             s2.name = "x:%s:%s" % (tag, name)
@@ -34,6 +41,8 @@ def cross_family(tier, observer=None, with_no_logger=True):
     add("base", logger_variants())
     add("c09", c09.scenarios(tier), keep=lambda n: n[0] in "IJK")
     add("c13", c13.halt_scenarios())
+    if wide:
+        add("c13s", c13.single_scenarios())
     add("c14", c14.scenarios(tier), keep=lambda n: n.startswith("both:") or n.startswith("mistake+limit") or n.startswith("two_fshocks") or "shock+" in n or ("-t1-" in n and "-on" in n and ("-r0.5" in n or "-hft" in n)))
     add("c15", c15.scenarios(tier), keep=lambda n: n.startswith("two_rules") or n.startswith("prefix_names") or ("-r0.25-tick1.0-" in n and (n.endswith("-on") or n.endswith("-hft_agent") or "other_events" in n)))
     add("c16", c16.scenarios(tier), keep=lambda n: "-L2-" in n or "-L2" in n or "sweep" in n or "two_tier" in n or "step0" in n)
